@@ -972,6 +972,10 @@ pub fn step(cfg: &Cfg, sut: &mut Sut, m: &mut Model, pre: &Snapshot, op: Op, has
         }
     };
 
+    // (iterinvall = an iterator is created, invalidate_all() returns, then the iterator is
+    // consumed: for the model an invalidate_all followed by an iteration)
+    let phases: Vec<Op> = if matches!(op, Op::IterInvAll) { vec![Op::InvAll, Op::Iter] } else { vec![op] };
+    for op in phases {
     match op {
         Op::Ins(k, w) => {
             let fresh = !pre_phys.contains_key(&k);
@@ -1098,6 +1102,8 @@ pub fn step(cfg: &Cfg, sut: &mut Sut, m: &mut Model, pre: &Snapshot, op: Op, has
             }
         }
         Op::Adv(_) | Op::Sync => {}
+        Op::IterInvAll => unreachable!(),
+    }
     }
 
     // S: which read records has maintenance applied by now?
